@@ -112,7 +112,10 @@ def inventory(P, crates):
                     if kind in ("BoundsCheck", "MisalignedPointerDereference", "NullPointerDereference"):
                         continue  # bounds checks are the Index expressions listed from HIR; pointer checks are debug-build UB checks
                     origin = "quote-repetition-counter" if _quote_internal(ex) else "user"
-                    out.append(PanicSite(b, b["path"], "assert", kind + ":" + _assert_op(a["msg"]), origin + "@" + _line_text(a), None, a["sp"], ex))
+                    bnode = None
+                    if origin == "user" and kind == "Overflow":
+                        bnode = next((x for x in walk(b["body"]) if x.get("k") == "Binary" and x.get("sp") == a["sp"]), None)
+                    out.append(PanicSite(b, b["path"], "assert", kind + ":" + _assert_op(a["msg"]), origin + "@" + _line_text(a), bnode, a["sp"], ex))
     return out
 
 
